@@ -57,6 +57,23 @@ NEEDS = {
     'S5-C15': "a BC edit or in-place value edit followed by gradientTerm before any apply_BCs / solvePDE",
     'S5-C16': "a radial grid class, the periodic flag set on left/right after the variable exists, and a repeated request after the first ValueError",
     'S5-C17': "SphericalGrid1D, convectionUpwindTerm called through the dispatcher with a u_upwind whose sign differs from u",
+    'S6-C01': "CylindricalGrid3D with theta periodicity requested through a flag on exactly one of top/bottom, and a flux evaluated explicitly from ghost cells across the seam (divergenceTerm(u*linearMean(phi)) in solveExplicitPDE or as explicit RHS)",
+    'S6-C02': "SphericalGrid3D, convectionUpwindTerm, negative theta velocity on the theta_max boundary faces, theta range not symmetric about pi/2",
+    'S6-C03': "PolarGrid2D sector (theta not periodic) with Robin / inhomogeneous Neumann data on a theta face: the ghost dispatcher's isinstance test sends polar meshes to the Cartesian routine",
+    'S6-C04': "a coefficient assigned through the setter with an ndarray of another shape but the same size (e.g. (Ny,) for the (1,Ny) left-face array) after the variable exists, then solvePDE with no other edit",
+    'S6-C05': "SphericalGrid3D with exactly one phi cell, upwind term, positive azimuthal velocity on the back face (repeated fancy index, last update wins)",
+    'S6-C06': "a 3-D grid, only the back (z-min) face edited after the last recompute, then solvePDE: the aggregate BCs.modified getter no longer looks at that face",
+    'S6-C07': "SphericalGrid3D, non-uniform phi spacing with different first/last phi cells, negative phi velocity on the front face, upwind term",
+    'S6-C08': "a 2-D/3-D grid built from face positions whose first two or last two cells differ (np.pad reflect for the ghost sizes), compared with the 1-D grid",
+    'S6-C09': "a whole-coefficient augmented assignment (face.c += x, *=, ...) after construction / the last solve, no other flagged edit, then solvePDE",
+    'S6-C10': "same change as S6-C08 (ghost cell sizes of 2-D/3-D grids built from face positions), seen through the geometry property",
+    'S6-C11': "linearMean on a 1-D grid whose cell widths all lie within 1e-8 (absolute) of the first one although they differ relatively (nanometre-scale domains)",
+    'S6-C12': "same change as S6-C06 (back face missing from the aggregate modified flag), seen through a transient step after a back-face edit",
+    'S6-C13': "the 'smart' limiter with gradient ratio above 7/3 (cap 4 replaced by 2)",
+    'S6-C14': "0 + CellVariable (e.g. sum() of a one-element list), then an in-place edit of the result or the operand",
+    'S6-C15': "SphericalGrid3D wedge (front/back not periodic): the row builder divides the caller's front.a / back.a in place; a second call (or solve) sees the scaled coefficients",
+    'S6-C16': "BoundaryFace constructed directly with a non-array that has a .shape (numpy scalar, sparse matrix, memoryview)",
+    'S6-C17': "TVD term with some |dphi/dx| in (1e-16, 1e-8] in the working units (np.isclose default atol in _fsign)",
     'S2-C16': "assigning FaceVariable.yvalue on CylindricalGrid2D / PolarGrid2D / 3-D curvilinear grids (subclasses of Grid2D/Grid3D) where the label is not documented",
 }
 
